@@ -8,14 +8,14 @@ Rec == ndJsonDeserialize(IOEnv.TRACE)
 Failed(e) ==
      (IF e.panicked \/ ~e.done THEN {"C02_LookupCompletes"} ELSE {})
   \cup (IF \E i \in 1..Len(e.yielded) : ~e.yielded[i].verified THEN {"C02_OnlyVerifiableItems"} ELSE {})
-  \cup (IF \E i \in 1..Len(e.yielded) : e.yielded[i].label # "authentic" THEN {"C02_OnlyAuthenticResponses"} ELSE {})
+  \cup (IF \E i \in 1..Len(e.yielded) : e.yielded[i].label \notin {"authentic", "long_authentic"} THEN {"C02_OnlyAuthenticResponses"} ELSE {})
 \* conformance (drift only): authentic responses do surface
 Conforms(e) == (e.authentic_responders > 0) = (Len(e.yielded) > 0)
 Init == l = 1
 Next == /\ l <= Len(Rec)
         /\ LET e == Rec[l] f == Failed(e) IN
            IF f # {} THEN PrintT(<<"VIOL", ToJson([line |-> l, b |-> e.b, failed |-> f,
-                   leaked |-> {e.yielded[i].label : i \in {j \in 1..Len(e.yielded) : e.yielded[j].label # "authentic" \/ ~e.yielded[j].verified}}])>>)
+                   leaked |-> {e.yielded[i].label : i \in {j \in 1..Len(e.yielded) : e.yielded[j].label \notin {"authentic", "long_authentic"} \/ ~e.yielded[j].verified}}])>>)
            ELSE IF ~Conforms(e) THEN PrintT(<<"DRIFT", ToJson([line |-> l, b |-> e.b, kind |-> e.kind, labels |-> e.labels])>>) ELSE TRUE
         /\ l' = l + 1
 Spec == Init /\ [][Next]_l
